@@ -16,6 +16,10 @@ input trees) and /repo, plus the implementation-level oracle of the property:
 Streams: xml_tree / dict_tree (grammar-generated abstract trees, compared with the model),
 xml_text / dict_text (arbitrary strings and structural mutations of valid files, oracle only),
 keep (valid generated documents with injected faults).
+Round 2, oracle only (see the comment above XML_ENTRIES): xml_file / keepx (byte encodings x shapes of the entry
+points x reader options x XML-level features x extended text pools), dict_py (Python values that are no JSON
+trees, YAML-only constructs, default show_warnings), reuse (one reader object, several inputs), sub (other
+locale and hash seed).
 """
 import contextlib
 import io
@@ -56,23 +60,55 @@ CARDS = ["(1, 2)", "(2,1)", "(None,3)", "x", u"(²,3)", "", "(0,0)", "(-1,2)", "
 MISC = ["x", "", " ", "some text", "http://example.invalid/t.xml", "/a/b", "0.5", u"é ", "a&b<c>"]
 
 
+# Extended pools (round 2): only the oracle-only streams switch them on (_X[0] = True); the streams that are
+# compared with the Lean model keep the pools above (str.lower()/strip()/isdigit() are modelled for ASCII
+# plus the superscript digits only).
+_X = [False]
+NAMES_X = [u"caf\xe9", u"\u65e5\u672c", u"a\u2028b", u"a\x85b", u"\U0001f600", u"\u0130", u"\xdf", "a/b", "a:b", "..",
+           u"e\u0301", "n" * 300, "0", "10", "-1", "None", "True", u"\xa0", "name", u"\uff11", "a\tb", "a\nb", u"\ud800"]
+UUIDS_X = ["urn:uuid:3a1f0c1e-8d5b-4c8e-9f59-1b2a3c4d5e6f", "00000000-0000-0000-0000-000000000000",
+           u"\uff13a1f0c1e-8d5b-4c8e-9f59-1b2a3c4d5e6f", " 3a1f0c1e-8d5b-4c8e-9f59-1b2a3c4d5e6f ",
+           "3a1f0c1e-8d5b-4c8e-9f59-1b2a3c4d5e6", "g" * 32, "3a1f0c1e-8d5b-4c8e-9f59-1b2a3c4d5e6f\n"]
+DATES_X = ["0999-01-01", "0001-01-01", "9999-12-31", "10000-01-01", "2020-02-30", "2020-01-02T10:00:00",
+           u"\u0662\u0660\u0662\u0660-\u0660\u0661-\u0660\u0662", "2020-01-02 ", "20200102", "999-01-01",
+           "-2020-01-02", "2020-01-02\n", "2020-1-02", "1900-02-29", "2000-02-29"]
+DTYPES_X = ["4-tuple", "10-tuple", "0-tuple", "-1-tuple", u"\uff12-tuple", "INT", "Date", "string ", "list",
+            "tuple", "1-tuple", "2-Tuple", "11-tuple", "datetime ", u"\u00b2-tuple"]
+VALUES_X = [u"[caf\xe9,\u65e5\u672c]", "[1,10,2]", "1e400", "[nan,inf]",
+            "[" + ",".join(str(i) for i in range(200)) + "]", u"[\u2028]", u"[a\x85b]", "[[1,2],[3]]", "(1;2;3)",
+            "0999-01-01", "[0999-01-01,2020-01-01]", "[True,false,TRUE]", "(1;2;3;4)",
+            "[(1;2;3;4;5;6;7;8;9;10)]", "(1;2;3;4;5;6;7;8;9;10;11)", "99999999999999999999999", u"\uff11",
+            u"[\u0663]", "10:00:00", "[0999-01-01 10:00:00]", "'a'", "[a'b,c]", "a\tb", "[\t]", "[1,,2]",
+            "[ 1 , 2 ]", "-0", "[1e3,0x10,1_0]", "2020-01-02 10:00:00", "[\"\"]", "[\"a\"\"b\"]"]
+CARDS_X = ["(10, 2)", "(9,10)", "(2,10)", "(010,2)", "(10,10)", "(1e3,2)", "(+1,2)", "(1_0,2)", u"(\u0663,4)",
+           u"(\uff11,\uff12)", "(1.0,2)", "(1,2.5)", "(99999999999999999999,None)", "(None,None)", "(none,1)",
+           "(1 ,2)", "(1,\n2)", "((1,2))", "(1,2),", u"(\uff11, None)", "(100,99)", "(0,10)", "(1,None,)",
+           "(True,2)", "(1;2)", "1,2", "(1,2", "(,)", "(None,)", "(-0,1)", "(00,01)"]
+MISC_X = [u"caf\xe9", u"\u65e5\u672c", u"a\u2028b", u"a\x85b", u"\U0001f600", "x" * 2000, "file:///etc/hostname",
+          "file:///nonexistent.xml#a", "#", "a#b#c", "\t", "0", "None", u"\ud800", u"\ufffe", "\x0b"]
+
+
+def pick(rng, base, ext):
+    return rng.choice(base + ext) if _X[0] else rng.choice(base)
+
+
 def texts_for(tag, rng):
     t = tag.lower()
     if t == "id":
-        return rng.choice(UUIDS)
+        return pick(rng, UUIDS, UUIDS_X)
     if t == "date":
-        return rng.choice(DATES)
+        return pick(rng, DATES, DATES_X)
     if t == "name":
-        return rng.choice(NAMES)
+        return pick(rng, NAMES, NAMES_X)
     if t == "value":
-        return rng.choice(VALUES)
+        return pick(rng, VALUES, VALUES_X)
     if t.endswith("_cardinality"):
-        return rng.choice(CARDS)
+        return pick(rng, CARDS, CARDS_X)
     if t == "type":
-        return rng.choice(DTYPES + ["t", "t"])
+        return pick(rng, DTYPES + ["t", "t"], DTYPES_X)
     if t == "uncertainty":
-        return rng.choice(["0.5", "x", "", "1"])
-    return rng.choice(MISC)
+        return pick(rng, ["0.5", "x", "", "1"], ["1e400", "nan", u"\uff11", "-0.5", "0,5"])
+    return pick(rng, MISC, MISC_X)
 
 
 # ----------------------------------------------------------------------------- abstract XML
@@ -238,26 +274,45 @@ SCALARS = [None, True, False, 0, 1, 5, -1, "x", "", "None", {"f": "0.5"}, {"f": 
 DNAMES = ["a", "b", "ab", "A", "", None, 1, 2, 0, [1], [], "a", "b", True]
 
 
+# Python values that are no JSON-like values (round 2, oracle-only stream dict_py); decoded by to_py_x
+XV = [{"tuple": [1, 2]}, {"tuple": []}, {"date": "2020-01-02"}, {"date": "0999-01-01"}, {"datetime": "2020-01-02T10:00:00"},
+      {"time": "10:00:00"}, {"bytes": "6162"}, {"set": [1, 2]}, {"f": "nan"}, {"f": "inf"}, {"f": "-0.0"}, {"f": "1e308"},
+      10 ** 30, -10 ** 400, u"caf\xe9", u"\u2028", u"a\x85b", "x" * 3000, {"od": [["a", 1]]}, {"ok": [[1, 2], [None, 3]]},
+      {"ok": [[{"tuple": [1, 2]}, 1]]}, u"\ud800", {"tuple": [{"tuple": [1, 2]}, {"tuple": [3, 4]}]}]
+DNAMES_X = [u"caf\xe9", {"bytes": "73"}, {"date": "2020-01-02"}, {"f": "nan"}, {"tuple": [1]}, 10 ** 30, {"f": "1.0"},
+            {"f": "2.5"}, u"\u2028", "10", -1, u"\ud800", "n" * 300, {"set": []}, " ", "a/b"]
+DCARDS_X = [{"tuple": [1, 2]}, [10, 2], [2, 10], [10, 10], [10 ** 30, None], [{"f": "1.0"}, {"f": "2.0"}], ["1", "2"],
+            [None, None], {"tuple": [None, 3]}, "(1, 2)", [1, {"f": "2.5"}], {"set": [1, 2]}, [{"f": "nan"}, 1],
+            [{"f": "inf"}, None], {"tuple": [2, 1]}, [0, 10], [100, 99], {"tuple": [1, 2, 3]}, [False, True]]
+DVALUES_X = [{"tuple": [1, 2]}, [{"tuple": [1, 2]}], {"date": "2020-01-02"}, [{"date": "0999-01-01"}],
+             [{"datetime": "2020-01-02T10:00:00"}], [{"time": "10:00:00"}], [{"bytes": "6162"}], {"set": [1, 2]},
+             [{"f": "nan"}, {"f": "inf"}], [10 ** 400], [u"caf\xe9", u"\u65e5\u672c"], ["(1;2;3;4;5;6;7;8;9;10)"],
+             list(range(200)), [u"\ud800"], ["0999-01-01"], [[1, 2], [3, 4]], [{"od": [["a", 1]]}], ["1", 1, True]]
+
+
 def d_value_for(key, rng):
     k = key.lower()
     if k in ("id", "oid"):
-        return rng.choice(UUIDS + [5, None])
+        return pick(rng, UUIDS + [5, None], UUIDS_X + [{"bytes": "6162"}, {"f": "1.5"}])
     if k == "date":
-        return rng.choice(DATES + [None, 3])
+        return pick(rng, DATES + [None, 3], DATES_X + [{"date": "2020-01-02"}, {"datetime": "2020-01-02T10:00:00"},
+                                                       {"date": "0999-01-01"}, {"time": "10:00:00"}, {"f": "nan"}])
     if k == "name":
-        return rng.choice(DNAMES)
+        return pick(rng, DNAMES, DNAMES_X)
     if k in ("value", "values"):
-        return rng.choice([1, [1, 2], "x", ["a", "b"], [], None, [[1, 2], [3]], {"o": [["a", 1]]}, [None],
-                           {"f": "1.5"}, [1, "x"], "(1;2)", True, [True, False], ""])
+        return pick(rng, [1, [1, 2], "x", ["a", "b"], [], None, [[1, 2], [3]], {"o": [["a", 1]]}, [None],
+                          {"f": "1.5"}, [1, "x"], "(1;2)", True, [True, False], ""], DVALUES_X)
     if k.endswith("_cardinality"):
-        return rng.choice([[1, 2], [2, 1], [None, 3], "ab", 5, [1, "x"], [[1], 2], [{"f": "1.5"}, 2],
-                           [True, 2], {"o": [["a", 1]]}, None, [2, 2], [0, 0], [-1, 2], ["None", 2],
-                           [1, 2, 3], []])
+        return pick(rng, [[1, 2], [2, 1], [None, 3], "ab", 5, [1, "x"], [[1], 2], [{"f": "1.5"}, 2],
+                          [True, 2], {"o": [["a", 1]]}, None, [2, 2], [0, 0], [-1, 2], ["None", 2],
+                          [1, 2, 3], []], DCARDS_X)
     if k in ("type", "dtype"):
-        return rng.choice(DTYPES + ["t", 5, None])
+        return pick(rng, DTYPES + ["t", 5, None], DTYPES_X + [{"bytes": "696e74"}, {"tuple": ["int"]}])
     if k == "uncertainty":
-        return rng.choice([{"f": "0.5"}, "x", None, 0, 1])
-    return rng.choice(SCALARS)
+        return pick(rng, [{"f": "0.5"}, "x", None, 0, 1], [{"f": "nan"}, 10 ** 400, {"tuple": [1]}])
+    if k in ("dependency", "dependencyvalue", "dependency_value") and _X[0]:
+        return rng.choice(SCALARS + DNAMES + [True, 0, 1, 5, -1])
+    return pick(rng, SCALARS, XV)
 
 
 PROP_KEYS = PROP_TAGS + ["values", "dtype", "oid", "dependency_value"]
@@ -657,17 +712,23 @@ def finish(res, reader_warnings, fn):
 
 
 def run_xml(text, mode, entry):
-    """entry: string | file | odml_string | odml_file"""
+    """entry: string | file | odml_string | odml_file | bytes | file_rb | bytesio (UTF-8 throughout)"""
     from odml.tools.xmlparser import XMLReader
     from odml.tools.odmlparser import ODMLReader
     res = {}
-    if entry in ("string", "file"):
+    if entry in ("string", "file", "bytes", "file_rb", "bytesio"):
         rd = XMLReader(ignore_errors=(mode == "lenient"), show_warnings=False)
         if entry == "string":
             return finish(res, lambda: rd.warnings, lambda: rd.from_string(text))
+        if entry == "bytes":
+            return finish(res, lambda: rd.warnings, lambda: rd.from_string(text.encode("utf-8")))
+        if entry == "bytesio":
+            return finish(res, lambda: rd.warnings, lambda: rd.from_file(io.BytesIO(text.encode("utf-8"))))
         path = tmp_path(".xml")
         with io.open(path, "w", encoding="utf-8", newline="") as fh:
             fh.write(text)
+        if entry == "file_rb":
+            return finish(res, lambda: rd.warnings, lambda: rd.from_file(io.open(path, "rb")))
         return finish(res, lambda: rd.warnings, lambda: rd.from_file(path))
     rd = ODMLReader("XML", show_warnings=False)
     if entry == "odml_string":
@@ -864,6 +925,780 @@ def dict_env(value):
     return env
 
 
+# ============================================================================= round 2: oracle-only streams
+# Dimensions of the property's quantifier that the streams above do not reach (see design.d/C16.md,
+# "Strengthening after seeded round 2"):
+#   xml_file  byte encoding of the input (declared encoding, BOM, 8/16/32 bit, unsupported and wrong
+#             declarations) x shape of the entry point (path, relative path, odd file names, binary / text
+#             file objects, in-memory streams, bytes and str strings, ODMLReader, odml.load,
+#             xmlparser.load) x reader options (show_warnings, filename) x XML-level features (DOCTYPE and
+#             entities, CDATA, character references, namespaces, PIs, comments, line ends) x the extended
+#             text pools (non-ASCII, NEL / U+2028, multi-digit numbers, years < 1000, lone surrogates)
+#   keepx     valid documents (non-ASCII names) + one injected fault through the same entry points
+#   dict_py   Python values that are no JSON trees (tuples, dates, bytes, sets, OrderedDict, non-string
+#             keys, shared sub-objects, nan / huge numbers), YAML-only constructs, text decorations,
+#             ODMLReader / odml.load with their default show_warnings=True
+#   reuse     one reader object used for several inputs (state left by refused and failed calls)
+#   sub       the same cases in a process with another locale (C / ASCII) and hash seed
+# The Lean model does not cover them: model_requests returns [] and the oracle alone decides.
+
+XML_ENTRIES = ["file", "file", "file_rb", "bytesio", "file_rt", "stringio", "string", "bytes", "odml_file",
+               "odml_string", "odml_bytes", "load", "load", "load_backend", "xp_load"]
+STR_ENTRIES = ("file_rt", "stringio", "string", "odml_string")        # the reader is given decoded text
+PATH_ENTRIES = ("file", "odml_file", "load", "load_backend", "xp_load")
+FILEISH = PATH_ENTRIES + ("file_rb", "bytesio")                        # lxml decodes the bytes of a file
+LENIENT_ENTRIES = ("odml_file", "load", "load_backend")                # always ignore_errors=True
+STRICT_ENTRIES = ("odml_string", "odml_bytes", "xp_load")              # always ignore_errors=False
+
+# codec used to write the bytes, encoding named in the XML declaration (None: no declaration, "": a
+# declaration without encoding), BOM, faithful (the bytes are the text in the encoding that the XML rules
+# detect: BOM, else declaration, else UTF-8), same (... and decode to the text that was written)
+ENC_UTF8 = [("utf-8", None, False, True, True), ("utf-8", "UTF-8", False, True, True),
+            ("utf-8", "utf-8", False, True, True), ("utf-8", "UTF8", False, True, True),
+            ("utf-8", "", False, True, True), ("utf-8", None, True, True, True), ("utf-8", "UTF-8", True, True, True)]
+ENC_OTHER = [("latin-1", "ISO-8859-1", False, True, True), ("latin-1", "iso-8859-1", False, True, True),
+             ("latin-1", "latin1", False, True, True), ("cp1252", "windows-1252", False, True, True),
+             ("iso8859-15", "ISO-8859-15", False, True, True), ("iso8859-2", "ISO-8859-2", False, True, True),
+             ("cp1251", "windows-1251", False, True, True), ("koi8-r", "KOI8-R", False, True, True),
+             ("mac-roman", "macintosh", False, True, True),
+             ("ascii", "US-ASCII", False, True, True), ("ascii", None, False, True, True),
+             ("ascii", "UTF-8", False, True, True), ("ascii", "ISO-8859-1", False, True, True),
+             ("utf-16-le", "UTF-16", True, True, True), ("utf-16-be", "UTF-16", True, True, True),
+             ("utf-16-le", None, True, True, True), ("utf-16-be", None, True, True, True),
+             ("utf-16-le", "UTF-16LE", False, True, True), ("utf-16-be", "UTF-16BE", False, True, True),
+             ("utf-32-le", "UTF-32", True, True, True), ("utf-32-le", "UTF-32LE", False, True, True),
+             ("utf-32-be", "UCS-4", False, True, True),
+             ("shift_jis", "Shift_JIS", False, True, True), ("euc-jp", "EUC-JP", False, True, True),
+             ("gb2312", "GB2312", False, True, True), ("big5", "Big5", False, True, True),
+             ("cp437", "IBM437", False, True, True), ("cp037", "IBM037", False, True, True),
+             ("utf-8", "ISO-8859-1", False, True, False)]
+ENC_WRONG = [("latin-1", "UTF-8", False, False, False), ("latin-1", None, False, False, False),
+             ("cp1252", "US-ASCII", False, False, False), ("utf-8", "UTF-16", False, False, False),
+             ("utf-16-le", "UTF-8", True, False, False), ("utf-16-le", "UTF-16", False, False, False),
+             ("utf-8", "klingon", False, False, False), ("utf-16-be", "UTF-16LE", False, False, False),
+             ("utf-8", "UTF-32", False, False, False), ("latin-1", "UTF-8", True, False, False)]
+BOMS = {"utf-8": b"\xef\xbb\xbf", "utf-16-le": b"\xff\xfe", "utf-16-be": b"\xfe\xff",
+        "utf-32-le": b"\xff\xfe\x00\x00", "utf-32-be": b"\x00\x00\xfe\xff", "latin-1": b"\xef\xbb\xbf"}
+FNAMES = ["", "", " a b", u"_\xe9\u65e5", "_%41#b?c&d", "_x;y+z%zz", "rel"]
+FNAMES_ASCII = ["", " a b", "_%41#b?c&d", "rel"]
+
+
+def gen_xspec(rng, ascii_names=False):
+    entry = rng.choice(XML_ENTRIES)
+    r = rng.random()
+    if entry in STR_ENTRIES or r < 0.4:
+        enc = rng.choice(ENC_UTF8)
+    elif r < 0.85:
+        enc = rng.choice(ENC_OTHER)
+    else:
+        enc = rng.choice(ENC_WRONG)
+    return {"codec": enc[0], "decl": enc[1], "bom": enc[2], "faithful": enc[3], "same": enc[4],
+            "entry": entry, "mode": rng.choice(["strict", "lenient"]), "sw": rng.random() < 0.4,
+            "fn": rng.choice([None, None, "x.xml", u"http://example.invalid/\xe9.xml"]),
+            "fname": rng.choice(FNAMES_ASCII if ascii_names else FNAMES),
+            "nl": rng.choice(["\n", "\n", "\n", "\r\n", "\r"])}
+
+
+def x_lenient(x):
+    if x["entry"] in LENIENT_ENTRIES:
+        return True
+    if x["entry"] in STRICT_ENTRIES:
+        return False
+    return x["mode"] == "lenient"
+
+
+# ---- XML-level features around a generated tree -----------------------------------------------------------
+DOCTYPES = [
+    '<!DOCTYPE odML>',
+    '<!DOCTYPE odML SYSTEM "odml.dtd">',
+    '<!DOCTYPE odML PUBLIC "-//G-Node//DTD odML 1.1//EN" "http://example.invalid/odml.dtd">',
+    '<!DOCTYPE odML [<!ENTITY e1 "txt"><!ENTITY e2 "&e1;,&e1;">'
+    '<!ENTITY sec "<section><name>ent</name><type>t</type></section>">]>',
+    '<!DOCTYPE odML [<!ENTITY e1 "[1,2]"><!ENTITY e2 "(&e1;)">'
+    '<!ENTITY sec "<property><name>entp</name><value>&e1;</value></property>">]>',
+    '<!DOCTYPE odML [<!ENTITY e1 "aaaaaaaaaa"><!ENTITY e2 "&e1;&e1;&e1;&e1;&e1;&e1;&e1;&e1;&e1;&e1;">'
+    '<!ENTITY e3 "&e2;&e2;&e2;&e2;&e2;&e2;&e2;&e2;&e2;&e2;"><!ENTITY e4 "&e3;&e3;&e3;&e3;&e3;&e3;&e3;&e3;&e3;&e3;">'
+    '<!ENTITY e5 "&e4;&e4;&e4;&e4;&e4;&e4;&e4;&e4;&e4;&e4;"><!ENTITY big "&e5;&e5;&e5;&e5;&e5;&e5;&e5;&e5;&e5;&e5;">'
+    '<!ENTITY sec "&big;">]>',
+    '<!DOCTYPE odML [<!ENTITY e1 SYSTEM "file:///etc/hostname"><!ENTITY e2 SYSTEM "http://example.invalid/x">'
+    '<!ENTITY sec SYSTEM "file:///nonexistent/odml.xml">]>',
+    '<!DOCTYPE odML [<!ENTITY e1 "&e2;"><!ENTITY e2 "&e1;"><!ENTITY sec "&sec;">]>',
+    '<!DOCTYPE odML [<!ELEMENT odML ANY><!ATTLIST odML version CDATA "1.1"><!ENTITY e1 "x">]>',
+    '<!DOCTYPE odML [<!ENTITY % p "<!ENTITY e1 \'pe\'>">%p;]>',
+    '<!DOCTYPE section [<!ENTITY e1 "x">]>',
+]
+PROLOG = ['<?xml-stylesheet type="text/xsl" href="odmlDocument.xsl"?>', '<!-- written by a tool -->', '<?pi?>', '\n', '  ']
+EPILOG = ['<!-- end -->', '<?pi data?>', '\n\n', ' ', 'junk', '<odML version="1.1"/>', '\x00']
+ROOT_ATTRS = [' xmlns:xsi="http://www.w3.org/2001/XMLSchema-instance" xsi:noNamespaceSchemaLocation="odml.xsd"',
+              ' xml:lang="en"', ' xml:space="preserve"', ' xmlns="http://www.g-node.org/odml"',
+              ' xmlns:gn="http://www.g-node.org/odml"', " version='1.1'", ' VERSION="1.1"']
+
+
+def feat_text(s, o, rng):
+    if s is None:
+        return ""
+    if o["cdata"] and rng.random() < 0.3 and "]]>" not in s:
+        return "<![CDATA[" + s + "]]>"
+    out = []
+    for c in s:
+        if c in XML_ESC:
+            out.append(XML_ESC[c])
+        elif o["charref"] and rng.random() < 0.15:
+            out.append("&#%d;" % ord(c) if rng.random() < 0.5 else "&#x%X;" % ord(c))
+        else:
+            out.append(c)
+    if o["entity"] and rng.random() < 0.15:
+        out.insert(rng.randrange(0, len(out) + 1), rng.choice(["&e1;", "&e2;", "&e1;", "&undefined;", "&big;", "&#0;"]))
+    return "".join(out)
+
+
+def ser_feat(node, o, rng, depth=0):
+    pad = ("\n" + "  " * depth) if o["indent"] else ""
+    if "o" in node:
+        return pad + {"pi": "<?target data?>", "comment": "<!-- note -->", "entity": "&sec;"}[node["o"]]
+    tag, nsdecl = ser_tag(node["t"])
+    if o["prefix"] and rng.random() < 0.1:
+        tag = "gn:" + tag
+    out = pad + "<" + tag + nsdecl + "".join(' %s="%s"' % (k, esc(v)) for k, v in node["a"])
+    if depth == 0:
+        out += o["rootattr"]
+    kids = list(node["k"])
+    if o["entity"] and kids and rng.random() < 0.2:
+        kids.insert(rng.randrange(0, len(kids) + 1), {"o": "entity"})
+    inner = feat_text(node["x"], o, rng) + "".join(ser_feat(k, o, rng, depth + 1) for k in kids)
+    if not inner and node["x"] is None:
+        return out + "/>"
+    if kids and o["indent"]:
+        inner += "\n" + "  " * depth
+    return out + ">" + inner + "</" + tag + ">"
+
+
+def feat_document(tree, rng):
+    o = {"indent": rng.random() < 0.4, "cdata": rng.random() < 0.3, "charref": rng.random() < 0.3,
+         "entity": rng.random() < 0.35, "prefix": rng.random() < 0.1,
+         "rootattr": rng.choice(ROOT_ATTRS) if rng.random() < 0.25 else ""}
+    pre = ""
+    if o["entity"] or rng.random() < 0.15:
+        pre += rng.choice(DOCTYPES[3:] if o["entity"] and rng.random() < 0.85 else DOCTYPES)
+    for _ in range(rng.randrange(0, 3)):
+        piece = rng.choice(PROLOG)
+        pre = (piece + pre) if rng.random() < 0.5 else (pre + piece)
+    post = ""
+    if rng.random() < 0.2:
+        post = rng.choice(EPILOG)
+    return pre + ser_feat(tree, o, rng) + post
+
+
+def gen_xml_body(rng, res):
+    """a text without XML declaration (the declaration is part of the encoding spec of the case)"""
+    r = rng.random()
+    if r < 0.4:
+        _X[0] = True
+        try:
+            return feat_document(gen_xml_doc(rng), rng)
+        finally:
+            _X[0] = False
+    if r < 0.6:
+        _X[0] = True
+        try:
+            return serialize(gen_xml_doc(rng))
+        finally:
+            _X[0] = False
+    if r < 0.7:
+        return serialize(gen_xml_doc(rng))
+    if r < 0.85 and res["XML"]:
+        text = rng.choice(res["XML"])
+        if rng.random() < 0.7:
+            text = mutate_text(text, rng)
+        return re.sub(r"^<\?xml[^>]*\?>\s*", "", text)
+    if r < 0.93:
+        depth = rng.choice([3, 30, 120, 199, 200, 256, 400])      # wf_problems treats depth > 200 as a cycle
+        return '<odML version="1.1">' + "<section><name>s</name><type>t</type>" * depth + "</section>" * depth + "</odML>"
+    return rng.choice(['<odML version="1.1">%s</odML>', "%s"]) % random_text(rng)
+
+
+VALID_NAMES_X = ["a", "b", u"caf\xe9", u"\u65e5\u672c", "a b", u"\xfc", "10", "9", u"\U0001f600", u"na\xefve", "A", u"\u0130x"]
+
+
+def gen_valid_doc_x(rng):
+    """as gen_valid_doc, names and values beyond ASCII, more siblings (10th element, names compared as text)"""
+    def sec(depth, used):
+        name = rng.choice([n for n in VALID_NAMES_X if n not in used])
+        used.add(name)
+        props = []
+        pused = set()
+        for _ in range(rng.choice([0, 1, 2, 3, 11])):
+            free = [n for n in ["p", "q", u"\xe9", u"\u65e5", "10", "2", "p10", "p2", "p1", "P", "r s", "z", "y"] if n not in pused]
+            pn = rng.choice(free)
+            pused.add(pn)
+            props.append([pn, rng.choice([[1, 2], ["x"], [], [1.5], ["a", "b"], [u"caf\xe9", u"\u65e5\u672c"],
+                                          [u"a\u2028b"], list(range(12)), ["a,b", "c"], [10 ** 20]])])
+        subs = []
+        sused = set()
+        if depth < 3:
+            for _ in range(rng.choice([0, 0, 1, 2, 3, 10 if depth == 1 else 1])):
+                if len(sused) < len(VALID_NAMES_X):
+                    subs.append(sec(depth + 1, sused))
+        return [name, rng.choice(["t", u"typ\xe9", "a/b"]), props, subs]
+    used = set()
+    return [sec(1, used) for _ in range(rng.randrange(1, 4))]
+
+
+# ---- running one XML case through an entry point -----------------------------------------------------------------
+def x_payload(body, x):
+    decl = x["decl"]
+    head = ""
+    if decl is not None:
+        head = '<?xml version="1.0"%s?>\n' % (' encoding="%s"' % decl if decl else "")
+    text = head + body
+    if x.get("nl", "\n") != "\n":
+        text = text.replace("\n", x["nl"])
+    data = text.encode(x["codec"], "xmlcharrefreplace")
+    if x["bom"]:
+        data = BOMS[x["codec"]] + data
+        text = u"\ufeff" + text
+    return text, data
+
+
+def lxml_parse_file(path):
+    """what lxml itself (default parser, no odML code) makes of the file: root element or the exception class"""
+    from lxml import etree
+    try:
+        return etree.parse(path).getroot(), None
+    except Exception as exc:
+        return None, fw.exc_name(exc)
+
+
+def lxml_parse_bytes(data):
+    from lxml import etree
+    try:
+        return etree.fromstring(data), None
+    except Exception as exc:
+        return None, fw.exc_name(exc)
+
+
+def str_root(text):
+    """decoded text: the XML declaration names the encoding of bytes and means nothing any more"""
+    from lxml import etree
+    text = re.sub(r"^(\ufeff?<\?xml[^>]*?)\s+encoding\s*=\s*(\"[^\"]*\"|'[^']*')", r"\1", text, count=1)
+    try:
+        return etree.fromstring(text.encode("utf-8")), None
+    except Exception as exc:
+        return None, fw.exc_name(exc)
+
+
+def root_is_ok(root):
+    return root is not None and root.tag == "odML" and root.get("version") == format_version()
+
+
+def run_xml_x(body, x):
+    from odml.tools.xmlparser import XMLReader
+    from odml.tools.odmlparser import ODMLReader
+    import odml
+    entry = x["entry"]
+    text, data = x_payload(body, x)
+    res = {"entry": entry, "sw": bool(x["sw"])}
+    lenient = x_lenient(x)
+    path = None
+    if entry in PATH_ENTRIES or entry in ("file_rb", "file_rt"):
+        fname = x["fname"]
+        path = tmp_path(("" if fname == "rel" else fname) + ".xml")
+        with io.open(path, "wb") as fh:
+            fh.write(data)
+        if fname == "rel":
+            path = os.path.relpath(path)
+    # what the input is, decided without the library
+    if entry in STR_ENTRIES:
+        root, err = str_root(text)
+    elif path is not None and entry != "file_rt":
+        root, err = lxml_parse_file(path)
+        res["lxml_file"] = err
+    else:
+        root, err = lxml_parse_bytes(data)
+        if entry == "bytesio":
+            res["lxml_file"] = lxml_parse_file(io.BytesIO(data))[1]
+    res["root_ok"] = root_is_ok(root)
+    # a file whose bytes are not the text its declaration / BOM announces is no "text": out of the
+    # property's scope unless lxml reads it all the same (weaker reading, see design.d/C16.md)
+    res["in_scope"] = bool(x["faithful"] or root is not None or entry in STR_ENTRIES)
+    res["decl_enc"] = bool(re.match(r"^\ufeff?<\?xml[^>]*encoding", text))
+    kw = {"show_warnings": bool(x["sw"])}
+    if entry in ("file", "file_rb", "bytesio", "file_rt", "stringio", "string", "bytes"):
+        rd = XMLReader(ignore_errors=lenient, filename=x["fn"], **kw)
+        if entry == "file":
+            fn = lambda: rd.from_file(path)
+        elif entry == "file_rb":
+            fn = lambda: rd.from_file(io.open(path, "rb"))
+        elif entry == "bytesio":
+            fn = lambda: rd.from_file(io.BytesIO(data))
+        elif entry == "file_rt":
+            fn = lambda: rd.from_file(io.open(path, "r", encoding="utf-8", newline=""))
+        elif entry == "stringio":
+            fn = lambda: rd.from_file(io.StringIO(text))
+        elif entry == "string":
+            fn = lambda: rd.from_string(text)
+        else:
+            fn = lambda: rd.from_string(data)
+        return finish(res, lambda: rd.warnings, fn)
+    if entry in ("odml_file", "odml_string", "odml_bytes"):
+        rd = ODMLReader(rng_case("XML", "xml", len(body)), **kw)
+        if entry == "odml_file":
+            fn = lambda: rd.from_file(path)
+        elif entry == "odml_string":
+            fn = lambda: rd.from_string(text)
+        else:
+            fn = lambda: rd.from_string(data)
+        return finish(res, lambda: rd.warnings, fn)
+    if entry == "load":
+        return finish(res, lambda: [], lambda: odml.load(path, **kw))
+    if entry == "load_backend":
+        return finish(res, lambda: [], lambda: odml.load(path, rng_case("XML", "xml", len(body)), **kw))
+    if entry == "xp_load":
+        from odml.tools import xmlparser
+        return finish(res, lambda: [], lambda: xmlparser.load(path))
+    raise ValueError(entry)
+
+
+def rng_case(a, b, n):
+    """spelling variants of a format name, chosen by a number of the case (no rng in the workers)"""
+    return a if n % 2 == 0 else b
+
+
+def judge(obs, lenient, in_scope, want=None, label=""):
+    """the clauses of the property for one reader call"""
+    out = []
+    outcome = obs.get("outcome")
+    if outcome == "timeout":
+        return [label + "reader did not return within %d s" % TIME_LIMIT]
+    if in_scope and outcome not in ALLOWED:
+        out.append(label + "reader ended with %s (neither a Document nor a ParserException)" % outcome)
+    if in_scope and lenient and obs.get("root_ok") and outcome != "doc":
+        out.append(label + "lenient reader raised %s on well-formed input with a current odML root" % outcome)
+    if outcome == "doc":
+        for p in obs.get("wf", []):
+            out.append(label + "returned document is not well-formed: %s" % p)
+        if want is not None:
+            have = set(obs.get("paths", []))
+            missing = [p for p in want if p not in have]
+            if missing:
+                out.append(label + "lenient reader dropped valid parts: %s" % missing[:4])
+    return out
+
+
+# ---- dictionaries that are no JSON trees ---------------------------------------------------------------------------
+def to_py_x(j, memo=None):
+    """to_py plus the tagged forms of XV (tuples, dates, bytes, sets, OrderedDict, any keys, shared objects)"""
+    import collections
+    import datetime
+    if memo is None:
+        memo = {}
+    if isinstance(j, list):
+        return [to_py_x(x, memo) for x in j]
+    if isinstance(j, dict):
+        if "f" in j:
+            return float(j["f"])
+        if "o" in j:
+            return dict((k, to_py_x(v, memo)) for k, v in j["o"])
+        if "tuple" in j:
+            return tuple(to_py_x(x, memo) for x in j["tuple"])
+        if "set" in j:
+            return set(x for x in (to_py_x(y, memo) for y in j["set"]) if isinstance(x, (int, str, float, tuple)))
+        if "date" in j:
+            return datetime.date(*[int(x) for x in j["date"].split("-")])
+        if "datetime" in j:
+            return datetime.datetime.strptime(j["datetime"], "%Y-%m-%dT%H:%M:%S")
+        if "time" in j:
+            return datetime.datetime.strptime(j["time"], "%H:%M:%S").time()
+        if "bytes" in j:
+            return bytes(bytearray.fromhex(j["bytes"]))
+        if "od" in j:
+            return collections.OrderedDict((k, to_py_x(v, memo)) for k, v in j["od"])
+        if "ok" in j:
+            out = {}
+            for k, v in j["ok"]:
+                k = to_py_x(k, memo)
+                try:
+                    out[k] = to_py_x(v, memo)
+                except TypeError:
+                    pass
+            return out
+        if "shared" in j:
+            if j["shared"] not in memo:
+                memo[j["shared"]] = to_py_x(j.get("v"), memo)
+            return memo[j["shared"]]
+    return j
+
+
+def exoticise(j, rng, counter):
+    """rewrite some containers of a generated dictionary document: tuples / sets instead of lists,
+    OrderedDict / dictionaries with further keys of any type, the same object at two places"""
+    if isinstance(j, list):
+        items = [exoticise(x, rng, counter) for x in j]
+        if items and isinstance(items[0], dict) and "o" in items[0] and rng.random() < 0.15:
+            counter[0] += 1
+            first = {"shared": counter[0], "v": items[0]}
+            items[0] = first
+            items.insert(rng.randrange(1, len(items) + 1), {"shared": counter[0]})
+        r = rng.random()
+        if r < 0.08:
+            return {"tuple": items}
+        return items
+    if isinstance(j, dict) and "o" in j:
+        pairs = [[k, exoticise(v, rng, counter)] for k, v in j["o"]]
+        r = rng.random()
+        if r < 0.06:
+            return {"od": pairs}
+        if r < 0.12:
+            extra = rng.choice([[1, 2], [None, 1], [True, "x"], [{"tuple": [1, 2]}, 3], [{"f": "1.5"}, 1], [{"bytes": "61"}, 1]])
+            pairs.insert(rng.randrange(0, len(pairs) + 1), extra)
+            return {"ok": pairs}
+        return {"o": pairs}
+    return j
+
+
+YAML_TEXTS = [
+    # aliases, merge keys, implicit types, tags, several documents, directives: every construct of YAML
+    # that produces something json does not
+    "odml-version: '1.1'\nDocument:\n  sections:\n  - &a {name: s, type: t}\n  - *a\n",
+    "odml-version: '1.1'\nDocument:\n  sections:\n  - &a {name: s, type: t, properties: [&p {name: p, value: [1]}, *p]}\n  - {<<: *a, name: u}\n",
+    "odml-version: '1.1'\nDocument:\n  sections:\n  - name: s\n    type: t\n    properties: &ps\n    - {name: p}\n  - name: u\n    type: t\n    properties: *ps\n",
+    "odml-version: '1.1'\nDocument:\n  date: 2020-01-02\n  sections:\n  - {name: 2020-01-02, type: t}\n  - {name: 1, type: t}\n  - {name: 1.5, type: t}\n",
+    "odml-version: '1.1'\nDocument:\n  sections:\n  - {name: yes, type: no}\n  - {name: ~, type: null}\n  - {name: 0x10, type: 010}\n  - {name: 1e3, type: .inf}\n",
+    "odml-version: '1.1'\nDocument:\n  date: 2020-01-02 10:00:00\n  sections: []\n",
+    "odml-version: '1.1'\nDocument:\n  author: !!binary aGVsbG8=\n  sections:\n  - {name: !!binary cw==, type: t}\n",
+    "odml-version: '1.1'\nDocument:\n  sections: !!set {a, b}\n",
+    "odml-version: '1.1'\nDocument: !!omap\n  - sections: []\n",
+    "odml-version: '1.1'\nDocument:\n  sections: !!omap\n  - name: s\n",
+    "odml-version: '1.1'\nDocument:\n  author: !!python/unicode 'x'\n  sections:\n  - {name: !!python/unicode 'n', type: !!str 1}\n",
+    "odml-version: '1.1'\nodml-version: '1'\nDocument:\n  sections: []\n",
+    "odml-version: '1.1'\nDocument:\n  sections: []\nDocument:\n  sections:\n  - {name: s, type: t}\n",
+    "odml-version: 1.1\nDocument:\n  sections: []\n",
+    "odml-version: '1.1'\nDocument:\n  sections:\n  - name: s\n    type: t\n    properties:\n    - name: p\n      value: [2020-01-02, 10:00:00, 1_000, 0o17, 1:30]\n      dependency: true\n",
+    "odml-version: '1.1'\nDocument:\n  sections:\n  - name: s\n    type: t\n    properties:\n    - {name: p, dependency: 1}\n",
+    "odml-version: '1.1'\nDocument:\n  sections:\n  - name: s\n    type: t\n    sec_cardinality: [10, 2]\n    prop_cardinality: !!python/tuple [1, 2]\n",
+    "odml-version: '1.1'\nDocument:\n  sections:\n  - name: |\n      multi\n      line\n    type: >\n      folded\n      text\n",
+    "odml-version: '1.1'\nDocument:\n  sections:\n  - {name: \"caf\\xe9 \\u2028 \\U0001F600\", type: t}\n  - {name: \"\\0\", type: t}\n",
+    "odml-version: '1.1'\nDocument:\n  ? sections\n  : - {name: s, type: t}\n  ? [a, b]\n  : 1\n",
+    "odml-version: '1.1'\nDocument:\n  1: 2\n  ~: 3\n  true: 4\n  sections:\n  - {name: s, type: t, 2020-01-02: x, 1.5: y}\n",
+    "{odml-version: '1.1', Document: {sections: [{name: s, type: t, sections: [{name: s, type: t}, {name: s, type: t}]}]}}\n",
+    "odml-version: '1.1'\nDocument: {}\n",
+    "odml-version: '1.1'\nDocument: []\n",
+    "odml-version: '1.1'\nDocument:\n",
+    "- odml-version: '1.1'\n- Document: {}\n",
+]
+TEXT_DECO = ["%s", "%s", "%s", "%%YAML 1.1\n---\n%s", "---\n%s...\n", u"\ufeff%s", "# comment\n%s# end\n", "\n\n%s\n\n",
+             "%s---\na: 1\n", "--- !!map\n%s", " %s"]
+
+
+def gen_dict_py(rng):
+    """one dict_py case"""
+    sw = rng.random() < 0.6
+    r = rng.random()
+    if r < 0.2:
+        text = rng.choice(TEXT_DECO) % rng.choice(YAML_TEXTS)
+        if rng.random() < 0.3:
+            text = text.replace("\n", "\r\n")
+        return {"stream": "dict_py", "text": text, "format": "YAML",
+                "entry": rng.choice(["odml_string", "odml_file", "load"]), "sw": sw}
+    counter = [0]
+    _X[0] = r < 0.7
+    try:
+        val = gen_dict_doc(rng)
+    finally:
+        _X[0] = False
+    if r < 0.85:
+        val = exoticise(val, rng, counter)
+    return {"stream": "dict_py", "value": val, "via": rng.choice(["direct", "direct", "JSON", "YAML", "YAML"]),
+            "entry": rng.choice(["odml_string", "odml_file", "load"]), "mode": rng.choice(["strict", "lenient"]),
+            "sw": sw, "deco": rng.randrange(0, 1000)}
+
+
+def dump_text(val, via, deco):
+    """the value as JSON / YAML text, or None when the format cannot express it"""
+    try:
+        if via == "JSON":
+            text = json.dumps(val, ensure_ascii=(deco % 2 == 0), indent=[None, 1, 4][deco % 3])
+            text = ["%s", " %s\n", "%s\n\n", "\n%s"][deco % 4] % text
+        else:
+            import yaml
+            text = yaml.safe_dump(val, sort_keys=False, allow_unicode=(deco % 2 == 0),
+                                  default_flow_style=[False, None, True][deco % 3])
+            text = TEXT_DECO[deco % 8] % text
+        text.encode("utf-8")
+        return text
+    except Exception:
+        return None
+
+
+def doc_flags(doc):
+    """shapes of a returned document that the known findings are keyed on"""
+    flags = {"nonstr_name": False, "nonstr_dep": False}
+
+    def walk(sec):
+        for p in sec.properties:
+            if not isinstance(p.name, str):
+                flags["nonstr_name"] = True
+            if p.dependency is not None and not isinstance(p.dependency, str):
+                flags["nonstr_dep"] = True
+        for s in sec.sections:
+            if not isinstance(s.name, str):
+                flags["nonstr_name"] = True
+            walk(s)
+    for s in doc.sections:
+        if not isinstance(s.name, str):
+            flags["nonstr_name"] = True
+        walk(s)
+    return flags
+
+
+def dict_text_call(text, fmt, entry, sw, suffix=""):
+    """-> (thunk, warnings accessor) for one of the text entry points of the dictionary formats"""
+    from odml.tools.odmlparser import ODMLReader
+    import odml
+    if entry == "odml_string":
+        rd = ODMLReader(fmt, show_warnings=sw)
+        return (lambda: rd.from_string(text)), (lambda: rd.warnings)
+    path = tmp_path(suffix + "." + fmt.lower())
+    with io.open(path, "w", encoding="utf-8", newline="") as fh:
+        fh.write(text)
+    if entry == "odml_file":
+        rd = ODMLReader(fmt, show_warnings=sw)
+        return (lambda: rd.from_file(path)), (lambda: rd.warnings)
+    return (lambda: odml.load(path, fmt if len(text) % 2 else fmt.lower(), show_warnings=sw)), (lambda: [])
+
+
+def run_dict_py(case):
+    from odml.tools.dict_parser import DictReader
+    import odml
+    sw = bool(case["sw"])
+    res = {"sw": sw}
+    if "text" in case:
+        fmt, entry, text = case["format"], case["entry"], case["text"]
+    else:
+        val = to_py_x(case["value"])
+        via = case["via"]
+        text = dump_text(val, via, case["deco"]) if via != "direct" else None
+        if text is None:
+            rd = DictReader(show_warnings=sw, ignore_errors=(case["mode"] == "lenient"))
+            res.update({"via": "direct", "shaped": dict_shaped(val), "root_ok": dict_root_ok(val),
+                        "lenient": case["mode"] == "lenient", "decoded": "value"})
+            finish(res, lambda: rd.warnings, lambda: rd.to_odml(val))
+            if res["outcome"] not in ALLOWED and sw:
+                rd2 = DictReader(show_warnings=False, ignore_errors=(case["mode"] == "lenient"))
+                quiet_rerun(res, lambda: rd2.to_odml(val))
+            return res
+        fmt, entry = via, case["entry"]
+    res["via"] = fmt
+    res["entry"] = entry
+    kind, val = decode_text(text, fmt)
+    res["decoded"] = kind
+    if kind == "value":
+        res["shaped"] = dict_shaped(val)
+        res["root_ok"] = dict_root_ok(val)
+    res["lenient"] = fmt == "YAML" and entry in ("odml_file", "load")
+    fn, warn = dict_text_call(text, fmt, entry, sw)
+    finish(res, warn, fn)
+    if res["outcome"] not in ALLOWED and sw:
+        fn2, _ = dict_text_call(text, fmt, entry, False)
+        quiet_rerun(res, fn2)
+    return res
+
+
+def quiet_rerun(res, fn):
+    """the same call with show_warnings=False (tells a leak of the readers from one of the validation report)"""
+    import odml
+    try:
+        with time_limit(TIME_LIMIT):
+            doc = fn()
+    except _Timeout:
+        res["quiet_outcome"] = "timeout"
+        return
+    except Exception as exc:
+        res["quiet_outcome"] = fw.exc_name(exc)
+        return
+    if isinstance(doc, odml.doc.BaseDocument):
+        res["quiet_outcome"] = "doc"
+        try:
+            res.update(doc_flags(doc))
+        except Exception:
+            pass
+    else:
+        res["quiet_outcome"] = "returned:" + type(doc).__name__
+
+
+# ---- one reader object, several inputs ------------------------------------------------------------------------------
+READERS = ["xml_strict", "xml_lenient", "xml_lenient", "odml_xml", "odml_json", "odml_yaml", "dict_strict",
+           "dict_lenient", "dict_lenient"]
+
+
+def gen_reuse(rng, res):
+    reader = rng.choice(READERS)
+    steps = []
+    for _ in range(rng.randrange(2, 5)):
+        r = rng.random()
+        if r < 0.45:
+            steps.append({"kind": "valid", "desc": gen_valid_doc(rng) if rng.random() < 0.5 else gen_valid_doc_x(rng)})
+        elif r < 0.8:
+            if reader.startswith(("xml", "odml_xml")):
+                steps.append({"kind": "tree", "tree": gen_xml_doc(rng)})
+            else:
+                steps.append({"kind": "dict", "value": gen_dict_doc(rng)})
+        else:
+            fmt = {"odml_json": "JSON", "odml_yaml": "YAML"}.get(reader, "XML")
+            pool = res.get(fmt) or [""]
+            text = mutate_text(rng.choice(pool), rng) if rng.random() < 0.6 else random_text(rng)
+            steps.append({"kind": "text", "text": text})
+        steps[-1]["via"] = rng.choice(["string", "file"])
+    return {"stream": "reuse", "reader": reader, "sw": rng.random() < 0.3, "steps": steps}
+
+
+def run_reuse(case):
+    from odml.tools.xmlparser import XMLReader
+    from odml.tools.odmlparser import ODMLReader, ODMLWriter
+    from odml.tools.dict_parser import DictReader
+    import odml
+    import yaml
+    reader = case["reader"]
+    sw = bool(case["sw"])
+    fmt = {"odml_json": "JSON", "odml_yaml": "YAML"}.get(reader, "XML")
+    if reader in ("xml_strict", "xml_lenient"):
+        rd = XMLReader(ignore_errors=(reader == "xml_lenient"), show_warnings=sw)
+    elif reader in ("dict_strict", "dict_lenient"):
+        rd = DictReader(ignore_errors=(reader == "dict_lenient"), show_warnings=sw)
+    else:
+        rd = ODMLReader(fmt, show_warnings=sw)
+    out = []
+    docs = []
+    for i, st in enumerate(case["steps"]):
+        o = {"sw": sw, "in_scope": True}
+        want = None
+        value = text = None
+        if st["kind"] == "valid":
+            doc = build_doc(st["desc"])
+            want = desc_paths(st["desc"])
+            if reader.startswith("dict"):
+                text = ODMLWriter("JSON").to_string(doc)
+                value = json.loads(text)
+            else:
+                text = ODMLWriter(fmt).to_string(doc)
+        elif st["kind"] == "tree":
+            text = serialize(st["tree"])
+        elif st["kind"] == "dict":
+            value = to_py(st["value"])
+            if not reader.startswith("dict"):
+                if not (json_like(value) and isinstance(value, (dict, list))):
+                    o["skipped"] = "value has no text form"
+                    out.append(o)
+                    continue
+                text = json.dumps(value) if fmt == "JSON" else yaml.safe_dump(value, sort_keys=False)
+        else:
+            text = st["text"]
+            if reader.startswith("dict"):
+                kind, value = decode_text(text, "JSON")
+                if kind != "value":
+                    o["skipped"] = "undecodable"
+                    out.append(o)
+                    continue
+        via = st["via"]
+        if reader.startswith("dict"):
+            o["lenient"] = reader == "dict_lenient"
+            o["in_scope"] = dict_shaped(value)
+            o["root_ok"] = dict_root_ok(value)
+            mk = lambda r, value=value: (lambda: r.to_odml(value))
+        else:
+            if fmt == "XML":
+                o["root_ok"] = root_is_ok(str_root(text)[0])
+                if reader == "odml_xml":
+                    o["lenient"] = via == "file"
+                else:
+                    o["lenient"] = reader == "xml_lenient"
+            else:
+                kind, val = decode_text(text, fmt)
+                o["via"] = fmt
+                o["in_scope"] = kind == "value" and dict_shaped(val)
+                o["root_ok"] = kind == "value" and dict_root_ok(val)
+                o["lenient"] = fmt == "YAML" and via == "file"
+            if via == "file":
+                try:
+                    text.encode("utf-8")
+                except UnicodeError:
+                    via = "string"
+            if via == "file":
+                path = tmp_path("_r%d.%s" % (i, fmt.lower()))
+                with io.open(path, "w", encoding="utf-8", newline="") as fh:
+                    fh.write(text)
+                if fmt == "XML":
+                    # the declaration of a file counts (it is the encoding of its bytes)
+                    o["root_ok"] = root_is_ok(lxml_parse_file(path)[0])
+                mk = lambda r, path=path: (lambda: r.from_file(path))
+            else:
+                mk = lambda r, text=text: (lambda: r.from_string(text))
+        holder = []
+        fn = mk(rd)
+
+        def call(fn=fn, holder=holder):
+            d = fn()
+            holder.append(d)
+            return d
+        finish(o, lambda: rd.warnings, call)
+        if o["outcome"] not in ALLOWED and sw and reader in ("odml_json", "odml_yaml"):
+            quiet_rerun(o, mk(ODMLReader(fmt, show_warnings=False)))
+        if want is not None:
+            o["want"] = want
+        if o.get("outcome") == "doc" and holder:
+            docs.append((i, holder[0]))
+        out.append(o)
+    # documents handed out earlier are still intact and share nothing with later ones
+    after = []
+    seen = {}
+    for i, d in docs:
+        try:
+            with time_limit(TIME_LIMIT):
+                for p in wf_problems(d):
+                    after.append("document of step %d after the later reads: %s" % (i, p))
+                stack = [d]
+                while stack:
+                    n = stack.pop()
+                    if id(n) in seen and seen[id(n)] != i:
+                        after.append("documents of steps %d and %d share an object" % (seen[id(n)], i))
+                        break
+                    seen[id(n)] = i
+                    stack.extend(getattr(n, "sections", []))
+                    stack.extend(getattr(n, "properties", []))
+        except Exception as exc:
+            after.append("inspecting the document of step %d raised %s" % (i, fw.exc_name(exc)))
+    return {"steps": out, "after": after[:5]}
+
+
+# ---- another process: locale and hash seed ---------------------------------------------------------------------------
+SUB_ENVS = [{"LC_ALL": "C", "LANG": "C", "PYTHONUTF8": "0", "PYTHONCOERCECLOCALE": "0", "PYTHONHASHSEED": "0"},
+            {"LC_ALL": "POSIX", "LANG": "", "PYTHONUTF8": "0", "PYTHONCOERCECLOCALE": "0", "PYTHONHASHSEED": "1"},
+            {"LC_ALL": "C.utf8", "PYTHONHASHSEED": "4242", "PYTHONIOENCODING": "ascii"}]
+
+
+def run_sub(case):
+    env = dict(os.environ)
+    env.update(case["env"])
+    here = os.path.dirname(os.path.abspath(__file__))
+    env["PYTHONPATH"] = here + os.pathsep + env.get("PYTHONPATH", "")
+    env["PYTHONDONTWRITEBYTECODE"] = "1"
+    proc = subprocess.run([sys.executable, os.path.abspath(__file__), "--sub"],
+                          input=json.dumps(case["cases"]).encode("ascii"), env=env,
+                          stdout=subprocess.PIPE, stderr=subprocess.PIPE, timeout=1200)
+    if proc.returncode != 0:
+        raise RuntimeError("sub process exited %s: %s" % (proc.returncode, proc.stderr.decode("ascii", "replace")[-400:]))
+    return json.loads(proc.stdout.decode("ascii").strip().split("\n")[-1])
+
+
+def sub_main():
+    import locale
+    cases = json.loads(sys.stdin.buffer.read().decode("ascii"))
+    chk = C16()
+    out = {"encoding": locale.getpreferredencoding(False), "sub": [chk.safe_impl(c) for c in cases]}
+    sys.stdout.write(json.dumps(out, ensure_ascii=True, default=repr) + "\n")
+    return 0
+
+
 # ----------------------------------------------------------------------------- the check
 class C16(fw.Check):
     prop = "C16"
@@ -917,7 +1752,16 @@ class C16(fw.Check):
             "unparsable values/dates/ids/cardinalities, duplicate sibling names, PIs, comments, wrong "
             "container types) x strict/lenient x string/file/ODMLReader entry points x XML/JSON/YAML; "
             "arbitrary token strings and structural mutations of the repository's resource files and of "
-            "generated documents; valid documents with one injected fault. A case is non-trivial when the "
+            "generated documents; valid documents with one injected fault. Oracle-only streams: the input as "
+            "bytes in 40 codec/declaration/BOM combinations (faithful, unsupported, wrong) x 15 shapes of the "
+            "entry points (path, odd and relative file names, binary/text file objects, BytesIO/StringIO, "
+            "bytes/str strings, ODMLReader, odml.load, xmlparser.load) x show_warnings x filename, DOCTYPE/"
+            "entities/CDATA/character references/namespaces/prolog and epilog/line ends, extended pools "
+            "(non-ASCII, NEL/U+2028, surrogates, multi-digit and non-ASCII digits, years < 1000, 10-tuples, "
+            "depth up to 400); dictionaries with tuples/sets/dates/bytes/OrderedDict/non-string keys/shared "
+            "objects/nan/huge numbers and YAML-only constructs through DictReader, ODMLReader and odml.load; "
+            "one reader object for 2-4 inputs; the same cases in a process with the C locale and another "
+            "hash seed. A case is non-trivial when the "
             "reader got past the version check (document returned, or ParserException from inside the "
             "tree, or warnings collected); distinct = distinct canonical JSON of the case.")
 
@@ -931,7 +1775,7 @@ class C16(fw.Check):
             tree = gen_xml_doc(rng)
             for mode in ("strict", "lenient"):
                 cases.append({"stream": "xml_tree", "tree": tree, "mode": mode,
-                              "entry": rng.choice(["string", "string", "file"])})
+                              "entry": rng.choice(["string", "string", "file", "bytes", "file_rb", "bytesio"])})
         n_dict = 1500 if q else 15000
         for _ in range(n_dict):
             val = gen_dict_doc(rng)
@@ -969,7 +1813,40 @@ class C16(fw.Check):
             desc = gen_valid_doc(rng)
             cases.append({"stream": "keep", "desc": desc, "format": rng.choice(["XML", "XML", "JSON", "YAML"]),
                           "fault": rng.randrange(0, 1000), "where": rng.randrange(0, 1000)})
+        cases += self.generate_round2(q, rng, res)
         return cases
+
+    def generate_round2(self, q, rng, res):
+        """oracle-only streams (see the comment above XML_ENTRIES)"""
+        cases = []
+        for _ in range(1500 if q else 15000):
+            cases.append({"stream": "xml_file", "text": gen_xml_body(rng, res), "x": gen_xspec(rng)})
+        for _ in range(400 if q else 4000):
+            cases.append(self.gen_keepx(rng, False))
+        for _ in range(1200 if q else 12000):
+            cases.append(gen_dict_py(rng))
+        for _ in range(300 if q else 3000):
+            cases.append(gen_reuse(rng, res))
+        for env in SUB_ENVS:
+            sub = []
+            for _ in range(40 if q else 300):
+                r = rng.random()
+                if r < 0.45:
+                    sub.append({"stream": "xml_file", "text": gen_xml_body(rng, res), "x": gen_xspec(rng, True)})
+                elif r < 0.75:
+                    sub.append(self.gen_keepx(rng, True))
+                else:
+                    c = gen_dict_py(rng)
+                    c["entry"] = "odml_string"      # how a JSON / YAML file is decoded is outside the property
+                    sub.append(c)
+            cases.append({"stream": "sub", "env": env, "cases": sub})
+        return cases
+
+    @staticmethod
+    def gen_keepx(rng, ascii_names):
+        desc = gen_valid_doc_x(rng) if rng.random() < 0.7 else gen_valid_doc(rng)
+        return {"stream": "keepx", "desc": desc, "format": "XML", "fault": rng.randrange(0, 1000),
+                "where": rng.randrange(0, 1000), "nofault": rng.random() < 0.4, "x": gen_xspec(rng, ascii_names)}
 
     # -- implementation ------------------------------------------------------
     def impl(self, case):
@@ -1022,8 +1899,20 @@ class C16(fw.Check):
             else:
                 obs["undecodable"] = val
             return obs
-        if st == "keep":
+        if st in ("keep", "keepx"):
             return self.impl_keep(case)
+        if st == "xml_file":
+            return run_xml_x(case["text"], case["x"])
+        if st == "dict_py":
+            return run_dict_py(case)
+        if st == "reuse":
+            return run_reuse(case)
+        if st == "sub":
+            obs = run_sub(case)
+            for o in obs["sub"]:
+                if "harness_exception" in o:
+                    raise RuntimeError("executor failed in the sub process: %s %s" % (o["harness_exception"], o.get("trace", "")[-600:]))
+            return obs
         raise ValueError(st)
 
     def impl_keep(self, case):
@@ -1058,9 +1947,16 @@ class C16(fw.Check):
                 # a valid sibling after the refused duplicate has to survive as well
                 fault += "<section><name>yy</name><type>t</type></section>"
                 want = want + [("/yy" if case["where"] % 2 == 0 else "/" + last[0] + "/yy")]
-            text = text[:idx] + fault + text[idx:]
-            obs = run_xml(text, "lenient", "string" if case["where"] % 3 else "odml_file")
-            obs["root_ok"] = xml_root_ok(text)
+            if case.get("nofault"):
+                want = desc_paths(case["desc"])
+            else:
+                text = text[:idx] + fault + text[idx:]
+            if "x" in case:
+                # round 2: the same document as bytes in some encoding through some entry point
+                obs = run_xml_x(re.sub(r"^<\?xml[^>]*\?>\s*", "", text), case["x"])
+            else:
+                obs = run_xml(text, "lenient", "string" if case["where"] % 3 else "odml_file")
+                obs["root_ok"] = xml_root_ok(text)
         else:
             import yaml
             data = json.loads(text) if fmt == "JSON" else yaml.safe_load(text)
@@ -1144,6 +2040,25 @@ class C16(fw.Check):
             return []
         st = case["stream"]
         out = []
+        if st in ("xml_file", "keepx"):
+            x = case["x"]
+            # the content is compared only when the bytes decode to the text that was written
+            want = obs.get("want") if st == "keepx" and x["same"] else None
+            return judge(obs, x_lenient(x), obs.get("in_scope", False), want)
+        if st == "dict_py":
+            return judge(obs, obs.get("lenient", False), obs.get("decoded") == "value" and obs.get("shaped", False))
+        if st == "reuse":
+            for i, o in enumerate(obs["steps"]):
+                if "skipped" not in o:
+                    out += judge(o, o["lenient"], o["in_scope"], o.get("want"), "[step %d] " % i)
+            return out + list(obs["after"])
+        if st == "sub":
+            for i, (c, o) in enumerate(zip(case["cases"], obs["sub"])):
+                if o.get("timeout"):
+                    out.append("[sub %d] the implementation did not terminate on this case" % i)
+                else:
+                    out += ["[sub %d] %s" % (i, f) for f in self.oracle(c, o)]
+            return out
         outcome = obs.get("outcome")
         if outcome == "timeout":
             return ["reader did not return within %d s" % TIME_LIMIT]
@@ -1173,18 +2088,62 @@ class C16(fw.Check):
         return out
 
     def finding_key(self, case, obs, failure):
+        st = case["stream"]
+        if st == "sub":
+            m = re.match(r"\[sub (\d+)\] (.*)", failure, re.S)
+            if not m:
+                return None
+            i = int(m.group(1))
+            return self.finding_key(case["cases"][i], obs["sub"][i], m.group(2))
+        if st == "reuse":
+            m = re.match(r"\[step (\d+)\] (.*)", failure, re.S)
+            if not m:
+                return None
+            return classify(obs["steps"][int(m.group(1))], m.group(2))
+        if st in ("xml_file", "keepx", "dict_py"):
+            return classify(obs, failure)
         return None
 
     def tag(self, case, obs):
         st = case["stream"]
+        if st in ("reuse", "sub"):
+            return ("%s:%s" % (st, case.get("reader", "")), True)
         outcome = obs.get("outcome", "?")
         if outcome not in ALLOWED:
             outcome = "other"
         nontrivial = (outcome == "doc") or bool(obs.get("warnings")) or \
                      (outcome == "ParserException" and bool(obs.get("root_ok")))
         mode = case.get("mode", "")
+        if st in ("xml_file", "keepx"):
+            mode = "%s/%s" % (case["x"]["entry"], case["x"]["codec"])
+        if st == "dict_py":
+            mode = obs.get("via", "")
         return ("%s:%s:%s" % (st, mode, outcome), nontrivial)
 
 
+def classify(o, failure):
+    """an oracle failure of one reader call -> key of a known finding, narrowly: the entry point, the
+    exception class and the input shape of the finding all have to be there"""
+    outcome = o.get("outcome")
+    if not isinstance(outcome, str):
+        return None
+    if ("ended with %s " % outcome) not in failure and ("raised %s " % outcome) not in failure:
+        return None
+    if outcome == "OSError" and o.get("entry") in FILEISH and o.get("lxml_file") == "OSError":
+        # lxml itself (without any odML code) answers the bytes of this file with OSError
+        return "xml-from-file-lxml-oserror"
+    if outcome == "ValueError" and o.get("entry") == "stringio" and o.get("decl_enc"):
+        return "xml-from-file-text-stream-declaration"
+    if o.get("sw") and o.get("via") in ("JSON", "YAML") and o.get("quiet_outcome") == "doc":
+        # the readers return a Document; the validation report that ODMLReader prints afterwards raises
+        if outcome == "TypeError" and o.get("nonstr_name"):
+            return "odmlreader-validation-report-nonstring-name"
+        if outcome == "IndexError" and o.get("nonstr_dep"):
+            return "odmlreader-validation-report-nonstring-dependency"
+    return None
+
+
 if __name__ == "__main__":
+    if sys.argv[1:2] == ["--sub"]:
+        sys.exit(sub_main())
     sys.exit(fw.main(C16(), sys.argv[1:]))
